@@ -126,6 +126,19 @@ func init() {
 			sharedObs["C08"] = append(sharedObs["C08"], o)
 		}
 	}
+	// "no tokens without client authentication and a registered grant": the per-grant proofs owned by C04/C07 are part of
+	// C05's verdict, and the Server router's authentication gate (owned by C05) is part of the per-grant properties whose
+	// LegacyServer siblings rely on it.
+	for _, fn := range []string{"op.AuthorizeCodeClient", "op.ValidateAccessTokenRequest", "op.AuthorizeRefreshClient", "op.ValidateRefreshTokenRequest"} {
+		guarAlso[fn] = append(guarAlso[fn], "C05")
+	}
+	for _, o := range obs {
+		if strings.HasPrefix(o.ID, "E1.withclient") || strings.HasPrefix(o.ID, "E1.legacy.verifyclient") {
+			for _, p := range []string{"C04", "C07", "C15", "C16"} {
+				sharedObs[p] = append(sharedObs[p], o)
+			}
+		}
+	}
 	for _, fn := range []string{"op.ClientBasicAuth", "op.ClientJWTAuth", "op.ClientIDFromRequest", "op.ParseTokenIntrospectionRequest", "op.(*LegacyServer).authenticateResourceClient", "op.AuthorizeClientIDSecret"} {
 		guarAlso[fn] = append(guarAlso[fn], "C08")
 	}
